@@ -10,7 +10,7 @@
     No proofs here. *)
 From Coq Require Import String.
 From FA Require Import model.Base model.Varint model.Value model.Schema model.Utf8 model.Float model.Codec
-                       model.Validate model.Write.
+                       model.Validate model.Write model.Read.
 
 (** ** the documented mapping *)
 
@@ -296,5 +296,32 @@ Definition run_elab2 (wo : wopts) (e : env) (s : schema) (v : pyval) : string :=
   match elab FUEL2 wo e s v with
   | WOk a => "A:" ++ show_a a ++ ";W:" ++ tohex (wire a) ++ ";" ++ (if floats_ok a then "fok" else "FBAD")
              ++ (if wf_py v then "" else ";pybad") ++ (if wf_schema s && wf_env e then "" else ";schemabad")
+  | WErr => "E" | WUnspec => "U" | WFuel => "FUEL"
+  end.
+
+(* C09: elaboration (indices), bytes, side-condition flags, the value a reader with options [ro] returns, and the
+   closure clause evaluated in the model: read with return_named_type=True, write back, same bytes? *)
+Definition ro_named : ropts := {| ret_rec := false; ret_rec_override := false; ret_named := true; ret_named_override := false |}.
+Definition run_c09 (wo : wopts) (ro : ropts) (e : env) (s : schema) (v : pyval) : string :=
+  match elab FUEL2 wo e s v with
+  | WOk a =>
+      "A:" ++ show_a a ++ ";W:" ++ tohex (wire a) ++ ";" ++ (if floats_ok a then "fok" else "FBAD")
+      ++ (if wf_py v then "" else "+pybad") ++ (if wf_schema s && wf_env e then "" else "+schemabad")
+      ++ ";R:" ++ (match py_of ro e s a with Some pv => show_py pv | None => "?" end)
+      ++ ";CL:" ++ (match py_of ro_named e s a with
+                    | Some pv => match write FUEL2 wo e s pv with
+                                 | WOk bs => if bytes_eqb bs (wire a) then "same" else "diff:" ++ tohex bs
+                                 | WErr => "E" | WUnspec => "U" | WFuel => "FUEL" end
+                    | None => "?" end)
+  | WErr => "E" | WUnspec => "U" | WFuel => "FUEL"
+  end.
+
+(* C10: both validation modes, non-strict | strict, then what the default writer does with the datum *)
+Definition run_c10 (dt : bool) (e : env) (s : schema) (v : pyval) : string :=
+  let o1 := {| strict := false; strict_allow_default := false; disable_tuple := dt |} in
+  let o2 := {| strict := true; strict_allow_default := false; disable_tuple := dt |} in
+  run_validate2 o1 e s v ++ "|" ++ run_validate2 o2 e s v ++ "|" ++
+  match elab FUEL2 o1 e s v with
+  | WOk a => "W:" ++ tohex (wire a) ++ (if floats_ok a then "" else ";FBAD")
   | WErr => "E" | WUnspec => "U" | WFuel => "FUEL"
   end.
